@@ -292,6 +292,9 @@ pub struct CollectionV3 {
     no_samples_in_last_batch: usize,
     /// Cumulative count of samples loaded from batches (for multi-batch archives)
     samples_loaded: usize,
+    /// Number of contig batches loaded so far (batches are appended at the cumulative sample
+    /// cursor, so each one can be applied only once and in order)
+    contig_batches_loaded: usize,
 
     // For in_group_id delta encoding
     in_group_ids: Vec<i32>,
@@ -319,6 +322,7 @@ impl CollectionV3 {
             placing_sample_id: 0,
             no_samples_in_last_batch: 0,
             samples_loaded: 0,
+            contig_batches_loaded: 0,
             in_group_ids: Vec::new(),
         }
     }
@@ -1095,6 +1099,19 @@ impl CollectionV3 {
     /// Load a batch of contigs (names + details)
     #[allow(clippy::needless_range_loop)]
     pub fn load_contig_batch(&mut self, archive: &mut Archive, id_batch: usize) -> Result<()> {
+        // Loading is idempotent: readers ask for "all batches" again whenever a looked-up sample
+        // has no contigs (e.g. an unknown name), and full-table queries always ask. Applying a
+        // batch a second time would index past the end of the sample table (the cursor below is
+        // cumulative), so a batch that is already in memory is left alone, and a batch asked for
+        // ahead of its predecessors pulls those in first.
+        if id_batch < self.contig_batches_loaded {
+            return Ok(());
+        }
+        while self.contig_batches_loaded < id_batch {
+            let next = self.contig_batches_loaded;
+            self.load_contig_batch(archive, next)?;
+        }
+
         // Use cumulative samples_loaded counter, NOT id_batch * batch_size
         // C++ AGC creates batches of ~50 samples, but batch_size defaults to 1M which is wrong
         let i_sample = self.samples_loaded;
@@ -1160,6 +1177,7 @@ impl CollectionV3 {
 
         // Update cumulative counter for next batch
         self.samples_loaded += self.no_samples_in_last_batch;
+        self.contig_batches_loaded += 1;
 
         Ok(())
     }
